@@ -141,6 +141,12 @@ def table_frame(spec: dict, dtag: str = "D"):
         data[f"u{lvl}"] = ["-----" if k == -1 else f"U{lvl}v{k}" for k in keys]
         schema[f"u{lvl}"] = pl.Utf8
     for lvl, keys in enumerate(spec.get("group_by") or []):
+        kt = spec.get("group_by_dtype")  # int / float / bool key values (0, 0.0, False are legitimate, falsy, values)
+        if kt in ("int", "float", "bool"):
+            conv = {"int": int, "float": float, "bool": bool}[kt]
+            data[f"k{lvl}"] = [None if k is None else conv(k) for k in keys]
+            schema[f"k{lvl}"] = {"int": pl.Int64, "float": pl.Float64, "bool": pl.Boolean}[kt]
+            continue
         data[f"k{lvl}"] = [None if k is None else f"K{lvl}v{k}" for k in keys]
         schema[f"k{lvl}"] = pl.Utf8
     for c, cls in enumerate(cols):
@@ -333,6 +339,13 @@ def _build_section(spec, page, dtag="D", htag="H") -> Built:
     elif hm == "rows":  # several full-width header rows, each with its OWN attributes (spec["header_rows_attrs"] = [attrs per row])
         hdrs = [rtf.RTFColumnHeader(text=[f"{htag}{r}.{j}" for j in range(len(shown))], **{**hattrs, **(ra or {})})
                 for r, ra in enumerate(spec.get("header_rows_attrs") or [{}, {}])]
+    elif hm == "stack":  # general multi-row header: spec["header_stack"] = [{"cells": m | None (= displayed columns),
+        # "widths": None (inherit) | list of m values | scalar}, ...]; row r carries texts H<r>.0 .. H<r>.<m-1>
+        hdrs = []
+        for r, row in enumerate(spec["header_stack"]):
+            m = row.get("cells") or len(shown)
+            wkw = {} if row.get("widths") is None else {"col_rel_width": row["widths"]}
+            hdrs.append(rtf.RTFColumnHeader(text=[f"{htag}{r}.{j}" for j in range(m)], **wkw, **hattrs))
     elif hm == "none":
         hdrs = []
     else:
